@@ -41,7 +41,8 @@ Section Structure.
     (* arguments: {old prior: new prior}; None = no entry (KeyError) *)
     Variable sigma : nat -> option nat.
 
-    (* TuplePrior.gaussian_tuple_prior_for_arguments: prior members in attribute order ... *)
+    (* TuplePrior.gaussian_tuple_prior_for_arguments: prior members in attribute order ...
+       (members defined by arithmetic, kept since 7acf0fe, are outside `wf` and not modelled) *)
     Fixpoint tuple_priors (ms : list (string * (nat * node))) : option (list (string * (nat * node))) :=
       match ms with
       | [] => Some []
@@ -318,9 +319,12 @@ Section Pass.
             if lu_bad lo then Exc EPrior
             else if bad_limits lo hi then Exc EPrior
             else Ok {| s_fam := FLogUniform; s_lo := lo; s_hi := hi; s_mean := lo; s_sigma := lo; s_wm := None |}
-        | FLogGaussian =>                                     (* Prior.with_limits: self.__class__(lower_limit=, upper_limit=)
-                                                                 lacks the required mean and sigma: TypeError *)
-            Exc EType
+        | FLogGaussian =>                                     (* LogGaussianPrior.with_limits (d755794): same mean and sigma,
+                                                                 limits intersected with the old ones *)
+            let lo := pl_lo (fst l) (s_lo old) in
+            let hi := pl_hi (snd l) (s_hi old) in
+            if bad_limits lo hi then Exc EPrior
+            else Ok {| s_fam := FLogGaussian; s_lo := lo; s_hi := hi; s_mean := lo; s_sigma := lo; s_wm := None |}
         end
     end.
 
